@@ -31,7 +31,11 @@ class GP(gpytorch.models.ExactGP):
         return gpytorch.distributions.MultivariateNormal(self.mean_module(x), self.covar_module(x))
 
 
-KERNELS = ["rbf", "matern05", "matern15", "matern25", "rq", "scale_rbf", "rbf+linear", "rbf*matern", "ard_rbf", "poly"]
+KERNELS = ["rbf", "matern05", "matern15", "matern25", "rq", "scale_rbf", "rbf+linear", "rbf*matern", "ard_rbf", "poly",
+           # kernels restricted to a subset of the input columns (active_dims); "[ad]" on the TOP-LEVEL kernel
+           # (a ScaleKernel inherits the active_dims of its base kernel), "[ad]+[ad']" / "[ad]*[ad']" on the parts only
+           "rbf[ad]", "scale_matern[ad]", "rbf[ad]+matern[ad']", "rq[ad]*linear[ad']"]
+ACTIVE_DIM_KERNELS = {k for k in KERNELS if "[ad" in k}
 MEANS = ["zero", "constant", "linear"]
 LIKS = ["gaussian", "fixed", "fixed+learned"]
 
@@ -55,6 +59,21 @@ def make_kernel(name, d, rng):
         m = k.RBFKernel(ard_num_dims=d); m.lengthscale = torch.tensor([ls() for _ in range(d)])
     elif name == "poly":
         m = k.PolynomialKernel(power=2); m.offset = rng.uniform(0.2, 2)
+    elif name in ACTIVE_DIM_KERNELS:
+        # a non-empty PROPER subset of the columns (d >= 2 is forced by gen_case), in random order of choice
+        ad = sorted(rng.sample(range(d), rng.randint(1, d - 1)))
+        ad2 = sorted(rng.sample(range(d), rng.randint(1, d - 1)))
+        if name == "rbf[ad]":
+            m = k.RBFKernel(active_dims=ad); m.lengthscale = ls()
+        elif name == "scale_matern[ad]":
+            b = k.MaternKernel(nu=2.5, active_dims=ad); b.lengthscale = ls()
+            m = k.ScaleKernel(b); m.outputscale = rng.uniform(0.3, 3)
+        elif name == "rbf[ad]+matern[ad']":
+            a = k.RBFKernel(active_dims=ad); a.lengthscale = ls()
+            b = k.MaternKernel(nu=1.5, active_dims=ad2); b.lengthscale = ls(); m = a + b
+        else:
+            a = k.RQKernel(active_dims=ad); a.lengthscale = ls(); a.alpha = rng.uniform(0.5, 3)
+            b = k.LinearKernel(active_dims=ad2); b.variance = rng.uniform(0.2, 2); m = a * b
     return m
 
 
@@ -84,7 +103,12 @@ FLAGS = {
     "small_eager_threshold": lambda: gs.max_eager_kernel_size(1),
     "cg": lambda: _multi(gs.max_cholesky_size(0), gs.cg_tolerance(1e-12), gs.eval_cg_tolerance(1e-12),
                          gs.max_cg_iterations(2000), gs.min_preconditioning_size(10 ** 6)),
+    # the EVALUATION-time tolerance alone is tight; the training-time knob settings.cg_tolerance stays at its default
+    # (ExactGP.__call__ installs eval_cg_tolerance for everything a prediction solves, caches included)
+    "cg_eval_tol_only": lambda: _multi(gs.max_cholesky_size(0), gs.eval_cg_tolerance(1e-12),
+                                       gs.max_cg_iterations(2000), gs.min_preconditioning_size(10 ** 6)),
     "fast_pred_var": lambda: _multi(gs.fast_pred_var(True), gs.max_root_decomposition_size(100)),
+    "debug_off": lambda: gs.debug(False),
     "attached_caches": lambda: gs.detach_test_caches(False),
     "skip_variances": lambda: gs.skip_posterior_variances(True),
 }
@@ -107,6 +131,9 @@ class _multi:
 BATCH_PATTERNS = ["params+data", "params-only", "data-only", "data-only,test-shared", "params(2,1)xdata(3)"]
 
 
+PRELUDES = ["targets", "inputs+targets", "inputs", "predict-other"]
+
+
 def gen_case(rng, tier, family="single"):
     nmax = 5 if tier == "quick" else 7
     n, t, d = rng.randint(1, nmax), rng.randint(1, 3), rng.randint(1, 3)
@@ -114,25 +141,97 @@ def gen_case(rng, tier, family="single"):
         n, t = rng.randint(1, 3), rng.randint(1, 2)
     if family == "batch":
         n = rng.randint(1, 4)
+    kernel = rng.choice(KERNELS)
+    if family == "multitask":
+        kernel = rng.choice(["rbf", "matern25", "rq", "rbf[ad]"])
+    if family == "batch":
+        kernel = rng.choice(["rbf", "matern15", "rq", "scale_rbf", "rbf[ad]"])
+    if kernel in ACTIVE_DIM_KERNELS:
+        d = rng.randint(2, 3)  # a proper subset of the columns needs at least two of them
     grid = lambda: rng.randint(-24, 24) / 8.0  # noqa: E731   dyadic inputs
-    # separated points (rejected otherwise) keep the problem well conditioned
-    for _ in range(200):
+    # separated points (rejected otherwise) keep the problem well conditioned; with active_dims the points must be
+    # separated in EVERY single column (any subset of columns may be the active one)
+    sep = (lambda p, q: min(abs(a - b) for a, b in zip(p, q))) if kernel in ACTIVE_DIM_KERNELS else \
+          (lambda p, q: max(abs(a - b) for a, b in zip(p, q)))
+    for _ in range(2000):
         pts = [[grid() for _ in range(d)] for _ in range(n + t)]
-        if all(max(abs(a - b) for a, b in zip(p, q)) >= 0.25 for p, q in itertools.combinations(pts, 2)):
+        if all(sep(p, q) >= 0.25 for p, q in itertools.combinations(pts, 2)):
             break
     c = dict(family=family, n=n, t=t, d=d, X=pts[:n], Xs=pts[n:], y=[rng.randint(-16, 16) / 8.0 for _ in range(n)],
-             kernel=rng.choice(KERNELS), mean=rng.choice(MEANS), lik=rng.choice(LIKS), hseed=rng.randint(0, 10 ** 9))
+             kernel=kernel, mean=rng.choice(MEANS), lik=rng.choice(LIKS), hseed=rng.randint(0, 10 ** 9))
     if family == "single":
-        # the property is about the CURRENT training data: some cases first predict on other data and then
-        # replace targets (or inputs and targets) with set_train_data before the compared prediction
-        c["prelude"] = rng.choice([None, None, "targets", "inputs+targets"])
+        # the property is about the CURRENT training data and the CURRENT test inputs: some cases first predict
+        # (mean and covariance evaluated) on other data and then install the case's data with set_train_data
+        # (targets only / inputs only / both), or first predict at OTHER test inputs on the same model object,
+        # before the compared prediction
+        c["prelude"] = rng.choice([None, None] + PRELUDES)
+    else:
+        c["prelude"] = rng.choice([None, None, "predict-other"])
     if family == "multitask":
-        c.update(tasks=2, rank=rng.choice([0, 1]), noise_rank=rng.choice([0, 1]), kernel=rng.choice(["rbf", "matern25", "rq"]),
+        c.update(tasks=2, rank=rng.choice([0, 1]), noise_rank=rng.choice([0, 1]),
                  y=[[rng.randint(-16, 16) / 8.0 for _ in range(2)] for _ in range(n)])
     if family == "batch":
-        c.update(pattern=rng.choice(BATCH_PATTERNS), kernel=rng.choice(["rbf", "matern15", "rq", "scale_rbf"]),
+        c.update(pattern=rng.choice(BATCH_PATTERNS),
                  mean=rng.choice(["zero", "constant"]), lik=rng.choice(["gaussian", "fixed"]))
     return c
+
+
+class DyadicKernel(gpytorch.kernels.Kernel):
+    """k(x, x') = a * sum_j min(x_j, x'_j) + b * <x, x'> on positive inputs (Brownian-motion + linear; PSD).  With a, b
+    and the inputs small dyadic rationals every entry of every matrix it produces is an exact small dyadic rational, so
+    the exact rational model stays cheap at training-set sizes where the iterative solvers no longer terminate by
+    exhausting the dimension (linear_cg looks at its tolerance only from its 11th iteration on)."""
+    has_lengthscale = False
+
+    def __init__(self, a, b, **kw):
+        super().__init__(**kw)
+        self.a, self.b = a, b
+
+    def forward(self, x1, x2, diag=False, **params):
+        if diag:
+            return self.a * torch.minimum(x1, x2).sum(-1) + self.b * (x1 * x2).sum(-1)
+        return (self.a * torch.minimum(x1.unsqueeze(-2), x2.unsqueeze(-3)).sum(-1)
+                + self.b * (x1 @ x2.transpose(-1, -2)))
+
+
+LARGE_SCALE = 2.0
+#                     updates) well below the comparison tolerance for the mean AND the covariance
+
+
+def gen_large(rng, tier):
+    """n_train above linear_cg's 10 unconditional iterations: the solver tolerances decide when CG stops.  Problems are
+    drawn until Kxx+S passes the iterative-path guards (cond <= COND_MAX, relative eigenvalue gap >= MIN_EIG_GAP)."""
+    n, t, d = rng.randint(13, 16 if tier == "quick" else 18), rng.randint(1, 2), rng.randint(1, 2)
+    for _ in range(600):
+        pts = set()
+        while len(pts) < n + t:
+            pts.add(tuple(rng.randint(1, 40) / 8.0 for _ in range(d)))
+        pts = [list(p) for p in pts]
+        rng.shuffle(pts)
+        a, b = rng.choice([0.25, 0.5, 1.0, 2.0]), rng.choice([0.0, 0.0625, 0.125, 0.25])
+        sp = rng.choice([0.25, 0.375, 0.5])
+        noise = [LARGE_SCALE * (0.25 + sp * i) for i in range(n)]
+        rng.shuffle(noise)
+        X = torch.tensor(pts[:n])
+        A = LARGE_SCALE * (a * torch.minimum(X.unsqueeze(-2), X.unsqueeze(-3)).sum(-1) + b * X @ X.T) + torch.diag(torch.tensor(noise))
+        ev = torch.linalg.eigvalsh(A)
+        if float((ev[1:] - ev[:-1]).min() / ev.abs().max()) >= 1.5 * MIN_EIG_GAP and float(ev.max() / ev.min()) <= 0.8 * COND_MAX:
+            break
+    return dict(family="large", n=n, t=t, d=d, X=pts[:n], Xs=pts[n:], y=[rng.randint(-16, 16) / 8.0 for _ in range(n)],
+                kernel="dyadic(min+dot)", ka=LARGE_SCALE * a, kb=LARGE_SCALE * b, noise=noise, mean=rng.choice(["zero", "constant"]),
+                mean_const=rng.randint(-8, 8) / 8.0, lik="fixed", hseed=rng.randint(0, 10 ** 9),
+                prelude=rng.choice([None, None, "predict-other"]))
+
+
+def build_large(case):
+    X = torch.tensor(case["X"]); y = torch.tensor(case["y"])
+    lik = gpytorch.likelihoods.FixedNoiseGaussianLikelihood(torch.tensor(case["noise"]))
+    if case["mean"] == "zero":
+        mean = gpytorch.means.ZeroMean()
+    else:
+        mean = gpytorch.means.ConstantMean(); mean.constant.data.fill_(case["mean_const"])
+    model = GP(X, y, lik, mean, DyadicKernel(case["ka"], case["kb"]))
+    return model, lik, X, y, torch.tensor(case["Xs"]), None
 
 
 class MTGP(gpytorch.models.ExactGP):
@@ -179,6 +278,9 @@ def build_batch(case):
     nm = case["kernel"]
     if nm == "rbf":
         kern = k.RBFKernel(batch_shape=bs); kern.lengthscale = par(0.4, 2.0)
+    elif nm == "rbf[ad]":
+        kern = k.RBFKernel(batch_shape=bs, active_dims=sorted(rng.sample(range(d), rng.randint(1, d - 1))))
+        kern.lengthscale = par(0.4, 2.0)
     elif nm == "matern15":
         kern = k.MaternKernel(nu=1.5, batch_shape=bs); kern.lengthscale = par(0.4, 2.0)
     elif nm == "rq":
@@ -218,6 +320,8 @@ def build(case):
         return build_multitask(case)
     if case.get("family") == "batch":
         return build_batch(case)
+    if case.get("family") == "large":
+        return build_large(case)
     rng = random.Random(case["hseed"])
     X = torch.tensor(case["X"]); y = torch.tensor(case["y"])
     lik = make_lik(case["lik"], case["n"], rng)
@@ -263,18 +367,21 @@ def impl_outputs(case, flags):
     cms = [FLAGS[f]() for f in flags]
     fam = case.get("family", "single")
     with torch.no_grad(), _multi(*cms):
-        if case.get("prelude"):
+        pre = case.get("prelude")
+        if pre == "predict-other":
+            # an earlier prediction of the SAME model object at other test inputs (one point more, all moved)
+            Xo = torch.cat([Xs + 0.3125, Xs[..., :1, :] - 0.4375], -2)
+            p0 = model(Xo); p0.loc; p0.covariance_matrix
+        elif pre:
             # start from different data, fill the prediction caches, then install the case's data
             y0 = y.flip(0) + 0.5
-            if case["prelude"] == "targets":
-                model.set_train_data(targets=y0, strict=False)
-            else:
-                model.set_train_data(inputs=X + 0.375, targets=y0, strict=False)
-            model(Xs)
-            if case["prelude"] == "targets":
-                model.set_train_data(targets=y, strict=False)
-            else:
-                model.set_train_data(inputs=X, targets=y, strict=False)
+            other = dict(targets=dict(targets=y0), inputs=dict(inputs=X + 0.375))
+            other["inputs+targets"] = dict(inputs=X + 0.375, targets=y0)
+            model.set_train_data(strict=False, **other[pre])
+            p0 = model(Xs); p0.loc; p0.covariance_matrix
+            mine = dict(targets=dict(targets=y), inputs=dict(inputs=X))
+            mine["inputs+targets"] = dict(inputs=X, targets=y)
+            model.set_train_data(strict=False, **mine[pre])
         post = model(Xs)
         m = post.loc; cov = post.covariance_matrix
         var = post.variance
@@ -304,7 +411,7 @@ def coq_case(n, t, KJ, mu, S, y):
     return "(%d%%nat, %d%%nat, %s, %s, %s, %s)" % (n, t, C.qc_mat(KJ), C.qc_vec(mu), C.qc_mat(S), C.qc_vec(y))
 
 
-ITERATIVE = {"cg", "fast_pred_var"}
+ITERATIVE = {"cg", "cg_eval_tol_only", "fast_pred_var"}
 COND_MAX = 300.0  # iterative paths (CG / Lanczos) are only compared on well-conditioned Kxx+S
 MIN_EIG_GAP = 1e-2  # ... whose eigenvalues are separated (relative gap), else Lanczos cannot reach full rank
 
@@ -334,7 +441,8 @@ def compare(out, case, flags, res, mm, mc, b=0):
     desc = dict(case=case, flags=sorted(flags), batch_element=b)
     path = "+".join(sorted(flags)) or "default"
     if case.get("prelude"):
-        path = "after-set_train_data(%s):%s" % (case["prelude"], path)
+        path = ("after-prediction-at-other-test-inputs:%s" % path if case["prelude"] == "predict-other" else
+                "after-set_train_data(%s):%s" % (case["prelude"], path))
     fam = case.get("family", "single")
     if fam != "single":
         path = fam + (":" + case["pattern"] if fam == "batch" else "") + ":" + path
@@ -395,11 +503,16 @@ def run(out, ctx):
             ntr = len(S)
             coq_cases.append(coq_case(ntr, len(mu) - ntr, KJ, mu, S, y)); owner.append((ci, b))
     res = C.coq_run_cases("C01", IMPORTS, RUN_DEF, coq_cases, shard=6)
-    out.rule = ("random exact-GP problems: single-output (n<=%d, t<=3, d<=3, 10 kernels x 3 means x 3 likelihoods), batched "
-                "(5 parameter/data broadcast patterns, every batch element compared with its own closed form) and "
-                "Kronecker multitask (2 tasks, task-kernel rank 0/1, task-noise rank 0/1); half of the single-output cases first predict on other data and then install the case's data with set_train_data (targets only / inputs and targets); each under the default settings, "
-                "every single non-default flag and random flag subsets; non-trivial = n_train>=2 and posterior variance "
-                "differs from the prior by >1e-6" % (5 if tier == "quick" else 7))
+    out.rule = ("random exact-GP problems: single-output (n<=%d, t<=3, d<=3, %d kernels - %d of them restricted to a proper subset "
+                "of the input columns by active_dims, on the top-level kernel or on the parts of a sum/product - x 3 means x 3 "
+                "likelihoods), batched (5 parameter/data broadcast patterns, every batch element compared with its own closed "
+                "form) and Kronecker multitask (2 tasks, task-kernel rank 0/1, task-noise rank 0/1); two thirds of the "
+                "single-output cases first predict on other data and then install the case's data with set_train_data "
+                "(targets only / inputs only / inputs and targets) or first predict at other test inputs on the same model "
+                "object (a third of the batched / multitask cases do the latter); each under the default settings, every "
+                "single non-default flag (incl. CG with only eval_cg_tolerance tight and cg_tolerance at its default, and "
+                "settings.debug(False)) and random flag subsets; non-trivial = n_train>=2 and posterior variance differs "
+                "from the prior by >1e-6" % (5 if tier == "quick" else 7, len(KERNELS), len(ACTIVE_DIM_KERNELS)))
     out.extra["tolerances"] = {"dense/cholesky": 1e-8, "cg or lanczos(full rank), cond<=%g, relative eigenvalue gap>=%g" % (COND_MAX, MIN_EIG_GAP): 1e-5,
                                 "marginal noise": 1e-9}
     model_by_case = {}
